@@ -234,7 +234,13 @@ int toInt(const std::string& s, char scientificNotation)
   std::size_t p = e + 1;
   if (s[p] == '+')
     p++;
-  long long value = fromString<long long>(s.substr(0, e));
+  // The mantissa itself must fit in an int (an int mantissa times 10 cannot overflow a long long):
+  std::istringstream mantissa(s.substr(0, e));
+  int m = 0;
+  mantissa >> m;
+  if (mantissa.fail())
+    throw Exception("TextTools::toInt(). Number out of range: " + s);
+  long long value = m;
   std::size_t firstNonZero = s.find_first_not_of('0', p);
   if (value != 0 && firstNonZero != std::string::npos)
   {
@@ -243,13 +249,11 @@ int toInt(const std::string& s, char scientificNotation)
     int exponent = fromString<int>(s.substr(firstNonZero));
     for (int i = 0; i < exponent; ++i)
     {
-      value *= 10;
+      value *= 10; // |value| <= INT_MAX before the multiplication
       if (value > std::numeric_limits<int>::max() || value < std::numeric_limits<int>::min())
         throw Exception("TextTools::toInt(). Number out of range: " + s);
     }
   }
-  if (value > std::numeric_limits<int>::max() || value < std::numeric_limits<int>::min())
-    throw Exception("TextTools::toInt(). Number out of range: " + s);
   return static_cast<int>(value);
 }
 
